@@ -7,7 +7,7 @@ E  error-state discipline               S  stream discipline        V  validatio
 from collections import defaultdict, deque
 
 from .extract import AnalysisBroken
-from .facts import as_assign, estr, unwrap, walk
+from .facts import as_assign, estr, need_names, unwrap, walk
 from .rule_g import index_root, iter_sites
 
 DEC = "OpenVolumeMesh::IO::detail::Decoder"
@@ -439,6 +439,7 @@ def validation_rules(ck, fb):
     if not f:
         raise AnalysisBroken("anchor vanished: BinaryFileReader::internal_read_file")
     f = f[0]
+    need_names(f, ["out"], None, "V.ok")
     oks = []
     for n, parents, pos in iter_sites(f):
         if n.get("k") == "ret":
@@ -543,11 +544,13 @@ def validation_rules(ck, fb):
             ok = found > 0 and guarded_all
         (ck.ok if ok else lambda r, w, t: ck.violate(r, w, t, "V.span:%s" % name))("V.span", g.where, "%s creates entities only after validate_span() succeeded" % name)
     rt = [x for x in fb.by_cls.get(BFR, []) if x.name == "read_topo_chunk" and x.has_cfg][0]
+    need_names(rt, ["expected_bytes"], None, "V.span")
     for callee in ("read_edges", "read_faces", "read_cells"):
         sites = [(b, i, n) for b, i, n in rt.nodes(("call",)) if n.get("pn", "").endswith("::" + callee)]
         ok = bool(sites) and all(any("remaining_bytes()" in estr(c) and "expected_bytes" in estr(c) and "!=" in estr(c) and pol is False for c, pol, e in rt.facts(b)) for b, i, n in sites)
         (ck.ok if ok else lambda r, w, t: ck.violate(r, w, t, "V.span:exact:%s" % callee))("V.span", rt.where, "read_topo_chunk calls %s only when remaining_bytes() == expected_bytes" % callee)
     rv = [x for x in fb.by_cls.get(BFR, []) if x.name == "read_vertices_chunk" and x.has_cfg][0]
+    need_names(rv, ["pos_size"], None, "V.span")
     sites = [(b, i, n) for b, i, n in rv.nodes(("call",)) if "GeometryReader" in n.get("pn", "") and n.get("pn", "").endswith("::read")]
     ok = bool(sites) and all(any("remaining_bytes()" in estr(c) and "pos_size" in estr(c) and "!=" in estr(c) and pol is False for c, pol, e in rv.facts(b)) for b, i, n in sites)
     (ck.ok if ok else lambda r, w, t: ck.violate(r, w, t, "V.span:exact:vertices"))("V.span", rv.where, "read_vertices_chunk reads positions only when remaining_bytes() == count * pos_size")
@@ -738,6 +741,7 @@ def range_rules(ck, fb):
             what = "%s: %s handle from %s" % (f.pq.split("::")[-1], kind, estr(a0)[:40])
             # audited instance: loop over a validated span
             if kind == "Vertex" and "GeometryReaderT" in f.id:
+                need_names(f, ["first", "count"], None, "R.handle (audited span loop)")
                 ub = upper_bound_guard(facts, arg)
                 ok = any("first" in estr(b) and "count" in estr(b) for b, c in ub)
                 (ck.ok if ok else lambda r, w, t: ck.violate(r, w, t, "R.handle:%s:span" % f.pq))("R.handle", where, what + " is bounded by first+count of the span validated by validate_span (audited instance, V.span)")
@@ -757,6 +761,10 @@ def range_rules(ck, fb):
                 if fixture:
                     canary = True
                     continue
+                from .facts import local_names
+                known = local_names(f, fb) | text_members
+                if ub and not any(nm in known for nm, _ in COUNTERS[kind]):
+                    raise AnalysisBroken("R.handle: %s: none of the registered %s counters %s exists here any more - counter renamed? re-audit the table" % (f.where, kind, [nm for nm, _ in COUNTERS[kind]]))
                 ck.violate("R.handle", where, what + " is not guarded by an upper-bound test of that same expression against the %s counter (guards on it: %s)" % (kind, [c for b, c in ub] or "none"), "R.handle:%s:%s" % (f.pq, kind))
                 continue
             t = expr_type(arg).replace("const ", "")
